@@ -4,14 +4,15 @@
 (*                                                                                  *)
 (*   {"ev": "eval", "t": k, "q": <the filter text that was run>,                      *)
 (*    "expr": <expression tree, FilterSem's record shape>,                            *)
-(*    "res":  {"cfg": {key: value}, "name": s, "sub": {key: value},                   *)
+(*    "res":  {"cfg": {key: value}, "name": s, "sub": {key: value}, "full": s,        *)
 (*             "meas": [{"unit": u, "orig": o, "id": position 1..n}]},                *)
 (*    "bits": [Match.Test(i)], "all": Match.All(), "any": Match.Any(),                *)
 (*    "outer": Match.Test(-1) or Match.Test(n),                                      *)
 (*    "pure": the result was deep-equal to its copy after Match,                      *)
 (*    "again": a second Match gave the same bits/all/any,                             *)
 (*    "kept": [id of every measurement left by Apply, in order; 0 = not an original    *)
-(*            measurement of the result], "ok": Apply's return value}                 *)
+(*            measurement of the result], "ok": Apply's return value,                 *)
+(*    "err": "" or the error / panic text of the evaluation}                          *)
 (*                                                                                  *)
 (* Regexp terms arrive as their language over the finite universe of values the        *)
 (* recorder draws from (op "unitre" for .unit, op "in" for whole-result keys); that     *)
@@ -30,7 +31,8 @@ Conforms(ev) ==
   LET x == ev.expr
       r == ev.res
       n == Len(r.meas)
-  IN /\ n >= 1
+  IN /\ ev.err = ""
+     /\ n >= 1
      /\ \A i \in 1..n : r.meas[i].id = i
      /\ Len(ev.bits) = n
      /\ \A i \in 1..n : ev.bits[i] = Holds(x, r, i)
